@@ -243,12 +243,12 @@ Proof. induction 1; cbn [List.length]; congruence. Qed.
 
 Lemma ps_concat top parts : Forall (PSd top) parts ->
   exists cooked ns, PS top (List.concat parts) cooked ns /\ (List.length parts <= fold_right plus O ns)%nat /\ Forall NoPkg cooked /\
-                    (parts <> [] -> cooked <> []).
+                    (parts <> [] -> cooked <> []) /\ Forall (fun n => (1 <= n)%nat) ns.
 Proof.
-  induction 1 as [|t r (c & n & Hps & Hne & Hn & Hk) _ (cs & ns & Hpss & Hlen & Hks & _)].
-  - exists [], []. split; [apply ps_nil|]. split; [cbn; lia|]. split; [constructor|congruence].
+  induction 1 as [|t r (c & n & Hps & Hne & Hn & Hk) _ (cs & ns & Hpss & Hlen & Hks & _ & Hns)].
+  - exists [], []. split; [apply ps_nil|]. split; [cbn; lia|]. split; [constructor|split; [congruence|constructor]].
   - exists (c ++ cs), (n ++ ns). split; [cbn [List.concat]; apply ps_app; assumption|].
-    split; [|split; [apply Forall_app; split; assumption|intros _; destruct c; [congruence|discriminate]]].
+    split; [|split; [apply Forall_app; split; assumption|split; [intros _; destruct c; [congruence|discriminate]|apply Forall_app; split; assumption]]].
     assert (G : fold_right plus O (n ++ ns) = (fold_right plus O n + fold_right plus O ns)%nat).
     { clear. induction n as [|x n IH]; [reflexivity|]. cbn [app fold_right]. rewrite IH. lia. }
     rewrite G. pose proof (sum_ge n Hn) as G2. destruct Hps as (_ & _ & _ & F2). pose proof (f2_length _ _ _ F2) as G3.
@@ -671,7 +671,7 @@ Proof.
   intros Hd Hn Hg Hvs.
   assert (Hparts : Forall (PSd false) (map sc_render_variant vs)).
   { apply Forall_map. revert Hvs. apply Forall_impl. apply ps_variant. }
-  destruct (ps_concat false _ Hparts) as (vc & vn & (vraw & Hvf & Hvn & Hvst) & _ & _ & _).
+  destruct (ps_concat false _ Hparts) as (vc & vn & (vraw & Hvf & Hvn & Hvst) & _ & _ & _ & _).
   set (tm1 := UP 123 :: seq_toks [def_stat] ++ [UP 125]).
   set (tm2 := UP 123 :: seq_toks vc ++ [UP 125]).
   set (D1 := kwt "sealed" :: kwt "trait" :: UId name :: gens_toks gs ++ tm1).
